@@ -17,7 +17,7 @@ META = {
         "message, scoped PDU and PDU cross every length in 100..300; the client must accept and return the value. "
         "Lemma: the buffer password_to_key hands to its hash is exactly the RFC 3414 A.2 expansion (recording hash "
         "object passed as the documented hash_implementation parameter)."),
-    "bounds": ["password lengths 1..300 (quick: 1..64, 120..135, 250..260)", "engine id lengths 5..32", "context engine id: default / explicit and different from the agent's", "operations get, getnext, bulkget, set, walk",
+    "bounds": ["password lengths 1..300 (quick: 1..64, 120..135, 250..260)", "engine id lengths 5..32 in four shapes (text, a long run of zero octets, octets that look like BER headers, 0xFF octets)", "context engine id: default / explicit and different from the agent's", "operations get, getnext, bulkget, set, walk",
                "users MD5 / SHA-1, with and without privacy (harness cipher)", "response padding 0..260 octets (every total / scoped PDU / PDU length from ~100 to ~380)"],
     "outside": ["passwords longer than 300 octets", "privacy protocols other than the harness stream cipher (DES/AES plug-ins are not installed)"],
     "stubs": ["sender = trampoline", "get_request_id pinned", "privacy plug-in = harness stream cipher", "hash_implementation = recording wrapper around hashlib (lemma job only)"],
@@ -67,14 +67,22 @@ def run_op(client, op, answer):
 def make_request_harness(kind, op, lset, fixed_engine_len=None, fixed_pw_len=None):
     level = 3 if kind.endswith("priv") else 1
 
-    def h(l_sel, e_len, ctx_sel=0):
+    def h(l_sel, e_len, ctx_sel=0, shape_sel=0):
         problem = None
         with window():
             L = lset[choose(l_sel, 0, len(lset) - 1)] if fixed_pw_len is None else fixed_pw_len
             E = choose(e_len, 5, 32) if fixed_engine_len is None else fixed_engine_len
             auth_pw = bytes((33 + (i * 7) % 90) for i in range(L))
             priv_pw = bytes((40 + (i * 11) % 80) for i in range(max(L, 1)))[::-1]
-            engine_id = (b"\x80\x00\x1f\x88\x04" + bytes(range(65, 65 + 27)))[:E]
+            shape = choose(shape_sel, 0, 3)
+            if shape == 0:
+                engine_id = (b"\x80\x00\x1f\x88\x04" + bytes(range(65, 65 + 27)))[:E]
+            elif shape == 1:    # a long run of zero octets (legal; 12 zero octets also look like an empty digest field)
+                engine_id = (b"\x80\x00\x1f\x88\x05" + b"\x00" * 26 + b"\x01")[:E - 1] + b"\x01"
+            elif shape == 2:    # octets that look like BER headers
+                engine_id = (b"\x80\x00\x1f\x88\x05" + b"\x04\x0c\x30\x82\x02\x01\x00\x04\x00" * 4)[:E]
+            else:
+                engine_id = (b"\x80\x00\x1f\x88\x05" + b"\xff" * 27)[:E]
             rids = C.RequestIds().install()
             try:
                 # 0: default context engine id; 1: an explicit one that differs from the agent's engine id
@@ -217,10 +225,10 @@ def jobs(tier):
                                             ("md5priv", "getnext"), ("md5priv", "bulkget"), ("sha1priv", "set"), ("sha1priv", "get")):
                 continue
             out.append(Job(f"request-{kind}-{op}-passwords", make_request_harness(kind, op, lset, fixed_engine_len=12),
-                           [Arg("l_sel", 0, len(lset) - 1), Arg("e_len", 12, 12), Arg("ctx_sel", 0, 0)], timeout=500 if quick else 1500,
+                           [Arg("l_sel", 0, len(lset) - 1), Arg("e_len", 12, 12), Arg("ctx_sel", 0, 0), Arg("shape", 0, 0)], timeout=500 if quick else 1500,
                            mode="E/concolic-window", functions=rf, sample_every=7))
             out.append(Job(f"request-{kind}-{op}-engineids", make_request_harness(kind, op, lset, fixed_pw_len=8),
-                           [Arg("l_sel", 0, 0), Arg("e_len", 5, 32), Arg("ctx_sel", 0, 1)], timeout=500 if quick else 1500,
+                           [Arg("l_sel", 0, 0), Arg("e_len", 5, 32), Arg("ctx_sel", 0, 1), Arg("shape", 0, 3)], timeout=500 if quick else 1500,
                            mode="E/concolic-window", functions=rf, sample_every=3))
         out.append(Job(f"response-{kind}-lengths", make_response_harness(kind), [Arg("pad", 0, 260)], timeout=500 if quick else 1500,
                        mode="E/concolic-window", functions=rf, sample_every=5))
